@@ -50,7 +50,11 @@ def run(ctx: Ctx) -> None:
     P.design(ctx)
     base = e2e.pipe_configs(ctx.quick)
     if ctx.quick:
-        base = base[:6]
+        # five ordinary modules plus every configuration of c_hashy (the module built around
+        # iteration over sets of names: enum methods, optional parameters, exception imports)
+        base = [c for c in base if c["module"] != "c_hashy"][:5] + [c for c in base if c["module"] == "c_hashy"]
+    # c_hashy additionally with more iterations: its hazards need several statements per test
+    base += [dict(c, iterations=12, assertions="SIMPLE") for c in base if c["module"] == "c_hashy"][:2]
     cfgs = []
     for c in base:
         cfgs.append(dict(c, hashseed=0))
